@@ -403,7 +403,10 @@ def check_c14(prop, tier, replay, selftest):
             return rec
         ok = selftest_corrupt("Trace_Bdd", out, corrupt, boundary=is_reset)
         print("SELFTEST %s: %s" % (prop, "binding demonstrated" if ok else "FAILED"))
-        return 0 if ok else 2
+        r1 = tlc_mc("Persist", "Persist_nv2_origrepair.cfg", workers=8, timeout=600)
+        print("SELFTEST C14 model: the shipped repair step (dependency list appended, not rebuilt) %s the store when called on a live object (F13)" %
+              ("corrupts" if r1["violation"] else "DOES NOT corrupt"))
+        return 0 if ok and r1["violation"] else 2
     res.add_mc(require_mc(tlc_mc("Persist", "Persist_nv2.cfg", workers=12, timeout=1200)))
     tr = tlc_trace("Trace_Bdd", out, boundary=is_reset)
     res.add_trace(tr)
